@@ -153,13 +153,14 @@ impl Voice {
         let call = format!("{}({})", self.wrapped_name(self.wrap), self.args().join(", "));
         let v = format!("v{}", self.id);
         match self.kind {
+            // the scalar is bound to a plain identifier: `((a) + (b), c)` does not parse
             Kind::Pair => (
-                format!("let ({v}a, {v}b) = {call}"),
-                format!("{v}a - {v}b"),
+                format!("let ({v}a, {v}b) = {call};\n  let {v} = {v}a - {v}b"),
+                v,
             ),
             Kind::Wide => (
-                format!("let ({v}a, {v}b, {v}c) = {call}"),
-                format!("{v}c + {v}a * 0.5"),
+                format!("let ({v}a, {v}b, {v}c) = {call};\n  let {v} = {v}c + {v}a * 0.5"),
+                v,
             ),
             _ => (format!("let {v} = {call}"), v),
         }
